@@ -2189,10 +2189,9 @@ var g = &grammar{
 										&choiceExpr{
 											pos: position{line: 453, col: 64, offset: 13906},
 											alternatives: []interface{}{
-												&litMatcher{
-													pos:        position{line: 453, col: 64, offset: 13906},
-													val:        ",",
-													ignoreCase: false,
+												&ruleRefExpr{
+													pos:  position{line: 453, col: 64, offset: 13906},
+													name: "ListSeparator",
 												},
 												&andExpr{
 													pos: position{line: 453, col: 70, offset: 13912},
